@@ -925,3 +925,16 @@ package core
 // the walk hands back an action's disposition (and so stops) only under the serial policy.
 //@ func (*Location).WorkWalk
 //@   assert[C04.action_failure_stops_walk_only_when_serial] at "return era.Disposition": rule.Policies != nil && rule.Policies.SerialActions
+
+// ---- C01: the pattern trie's write path ---------------------------------------------------------
+// "No matching rule is ever skipped because of how rules are indexed ... a rule that was removed ... never blocks other
+// rules": adding or removing ONE id's pattern never detaches a branch of the trie and never touches the membership of
+// any other id (branches are created on demand and never removed; only the id sets at the leaves change, and only for id).
+//@ define piKeepsBranches() = forall(n, *PatternIndex, !fresh(n) ==> (old(n.Var) != nil ==> n.Var == old(n.Var)) && (old(n.Map) != nil ==> n.Map == old(n.Map)) && (old(n.String) != nil ==> n.String == old(n.String)) && (old(n.Ids) != nil ==> n.Ids == old(n.Ids)))
+//@ define piKeepsKeys() = forall(m, map[string]*PatternIndex, forall(k, string, !fresh(m) && old(has(m, k)) ==> has(m, k) && m[k] == old(m[k])))
+//@ define piKeepsOtherIds(id) = forall(s, StringSet, forall(x, string, !fresh(s) && x != id && old(has(s, x)) ==> has(s, x)))
+//@ func (*PatternIndex).mod
+//@   ensures[C01.pi_mod_never_detaches_a_branch] piKeepsBranches()
+//@   ensures[C01.pi_mod_never_drops_a_key]       piKeepsKeys()
+//@   ensures[C01.pi_mod_keeps_other_ids]         piKeepsOtherIds(id)
+//@   ensures[C01.pi_add_adds_no_foreign_id]      forall(s, StringSet, forall(x, string, !fresh(s) && x != id && has(s, x) ==> old(has(s, x))))
